@@ -1,4 +1,4 @@
-import PPLV.Lin.Model
+import PPLV.Lin.Base
 import Mathlib.Tactic.Linarith
 import Mathlib.Tactic.Ring
 import Mathlib.Tactic.FieldSimp
